@@ -107,6 +107,12 @@ class WebBrowser(Application, discriminator="web-browser"):
             self.sys_log.warning(f"{url} is not a valid URL")
             return False
 
+        if parsed_url.hostname is None:
+            # no URL at all (neither an argument nor a configured target_url), or a text without a host part: there is
+            # nothing to look up (asking the DNS client about the host name None raised a ValidationError)
+            self.sys_log.warning(f"{self.name}: Unable to resolve URL {url}")
+            return False
+
         # get the IP address of the domain name via DNS
         dns_client: DNSClient = self.software_manager.software.get("dns-client")
         domain_exists = dns_client.check_domain_exists(target_domain=parsed_url.hostname)
